@@ -4,6 +4,7 @@ package main
 
 import (
 	"fmt"
+	"strconv"
 	"go/constant"
 	"go/token"
 	"go/types"
@@ -1229,6 +1230,11 @@ func (in *Interp) callFunc(caller *frame, fn *ssa.Function, args []Value, env []
 		// a harness-provided replacement with the same parameter list (receiver first)
 		return in.callSSA(caller, r, args, nil)
 	}
+	if name == "strconv.ParseUint" && len(args) == 3 {
+		if s, ok := args[0].(Str); ok && s.num != nil {
+			return Tuple{s.num, Iface{}}
+		}
+	}
 	if mname, ok := modelRedirects[name]; ok && in.initMode == 0 {
 		if p := in.prog.ImportedPackage(rtPkg); p != nil {
 			if mf := p.Func(mname); mf != nil {
@@ -1590,6 +1596,23 @@ func (in *Interp) valueEq(a, b Value) *T {
 		return tb.Eq(a, b.(*T))
 	case Str:
 		bs := b.(Str)
+		if a.num != nil || bs.num != nil {
+			// decimal renderings are injective
+			if a.num != nil && bs.num != nil {
+				return tb.Eq(a.num, bs.num)
+			}
+			n, o := a, bs
+			if n.num == nil {
+				n, o = bs, a
+			}
+			if c, ok := o.concrete(); ok {
+				if v, err := strconv.ParseUint(c, 10, 64); err == nil && strconv.FormatUint(v, 10) == c {
+					return tb.Eq(n.num, tb.BV(64, v))
+				}
+				return tb.fls
+			}
+			in.unsupported("comparison of a numeric string with a symbolic string")
+		}
 		if a.opaque || bs.opaque {
 			if a.opaque && bs.opaque && a.otag == bs.otag {
 				return tb.tru
